@@ -52,7 +52,9 @@ fnameStdout(void)
 Bool
 fnameIsStdin(FileName fn)
 {
-	return strEqual(fnameName(fn), "-");
+	/* fnameStdin() has no type: a source file called "-.as" is not the standard input. */
+	return strEqual(fnameName(fn), "-") &&
+	       (!fnameType(fn) || !fnameType(fn)[0]);
 }
 
 Bool
